@@ -102,7 +102,7 @@ func runC09(c *eng.Ctx, thorough bool) {
 		// tracker
 		"raft.fsmTxnCommitIndexTracker.l":                "lock only",
 		"raft.fsmTxnCommitIndexTracker.indexModifiedMap": "in-memory record of writes applied since the database was opened; may only skip verification for windows starting at/after completeSince (checked below); trimmed only by the replicated LowestActiveIndex",
-		"raft.fsmTxnCommitIndexTracker.completeSince":   "applied index the database was opened at (persisted cursor)",
+		"raft.fsmTxnCommitIndexTracker.completeSince":    "applied index the database was opened at (persisted cursor)",
 		"raft.fsmTxnCommitIndexTracker.sourceIndexMap":   "leader-local count of open transactions; not read on the apply path today (listed so that a new read is noticed)",
 		// per-command state
 		"raft.fsmTxnCommitIndexApplicationState.parent":             "access path to the tracker",
